@@ -212,8 +212,8 @@ def aboveMax (maxSize : Option (Nat × Nat)) (s : SymbolInfo) : Bool :=
 
 /-- a row passes the three `continue` filters of `SymbolInfo_Lookup` -/
 def admissible (shape : Shape) (minSize maxSize : Option (Nat × Nat)) (s : SymbolInfo) : Bool :=
-  !(shape == .square && s.rectangular) &&
-  !(shape == .rectangle && !s.rectangular) &&
+  !(decide (shape = .square) && s.rectangular) &&
+  !(decide (shape = .rectangle) && !s.rectangular) &&
   !belowMin minSize s && !aboveMax maxSize s
 
 /-- the loop of `SymbolInfo_Lookup` -/
